@@ -186,7 +186,18 @@ func genLC(r *prng) *plan {
 		case 6:
 			tim = int64(1 + r.intn(4))
 		}
+		if r.chance(7) {
+			// a full update that straddles the period boundary behind the store: attested (and finalized) in the
+			// last slots of the previous period, signed in the first slots of the store's period by its committee
+			rel, tim, corrupt = 9, 4, 0
+			p.Ops = append(p.Ops, opSpec{K: "update", N: []int64{0, rel, int64(3 + r.intn(5)), corrupt, tim, int64(r.u64() >> 1)}})
+			continue
+		}
 		p.Ops = append(p.Ops, opSpec{K: "update", N: []int64{int64(r.intn(3)), rel, part, corrupt, tim, int64(r.u64() >> 1)}})
+		if r.chance(12) {
+			// the aggregate that was just presented comes again with one more participation bit set
+			p.Ops = append(p.Ops, opSpec{K: "replay", N: []int64{int64(r.intn(3)), int64(r.u64() >> 1)}})
+		}
 		if r.chance(20) {
 			p.Ops = append(p.Ops, opSpec{K: "sleep", N: []int64{int64(r.intn(3)), int64(r.intn(100))}})
 		}
@@ -250,6 +261,10 @@ func runLC(seed uint64) {
 		return uint64(cfg.Spec.TimeToSlot(zc.Timestamp(time.Now().Unix()), zc.Timestamp(cfg.Chain.GenesisTime)))
 	}
 
+	var lastU *beacon.GenericUpdate
+	var lastBits, lastSignBits []bool
+	var lastSigner *lcCommittee
+	var lastMsgOK bool
 	for opi, op := range p.Ops {
 		if op.K == "sleep" {
 			// clock faults: virtual time passes (also across a period boundary)
@@ -258,6 +273,72 @@ func runLC(seed uint64) {
 			w.op("sleep %v (current slot now %d)", d, nowSlot())
 			w.abstract("sleep %d", op.n(0)%3)
 			w.probe("clock_jump")
+			continue
+		}
+		if op.K == "replay" {
+			if lastU == nil {
+				continue
+			}
+			rr := newPrng(uint64(op.n(1)) + 3)
+			bits := append([]bool{}, lastBits...)
+			var cand []int
+			want := op.n(0)%2 == 0 // true: set a bit that was clear; false: clear one that was set
+			for i, b := range bits {
+				if b != want {
+					cand = append(cand, i)
+				}
+			}
+			if len(cand) == 0 {
+				continue
+			}
+			i := cand[rr.intn(len(cand))]
+			bits[i] = want
+			u2 := *lastU
+			u2.SyncAggregate = &altair.SyncAggregate{SyncCommitteeBits: bitsOf(bits), SyncCommitteeSignature: lastU.SyncAggregate.SyncCommitteeSignature}
+			// ground truth: the bytes are a valid aggregate for the new bitmap only if the keys at the marked
+			// positions of the committee the store now holds for that period are, as a multiset, the keys that
+			// signed (the presented aggregate may itself have been one with a bent bitmap)
+			sp := uint64(u2.SignatureSlot) / lcSlotsPerPeriod
+			fp := uint64(lc.Store.FinalizedHeader.Slot) / lcSlotsPerPeriod
+			var sc *zc.SyncCommittee
+			if sp == fp {
+				sc = lc.Store.CurrentSyncCommittee
+			} else if sp == fp+1 {
+				sc = lc.Store.NextSyncCommittee
+			}
+			var verifier *lcCommittee
+			for _, c := range lw.comms {
+				if c.c == sc {
+					verifier = c
+				}
+			}
+			coincides := false
+			if verifier != nil && lastMsgOK {
+				wantK, haveK := make([]int, len(lw.keys)), make([]int, len(lw.keys))
+				for j := range bits {
+					if bits[j] {
+						wantK[verifier.keys[j]]++
+					}
+					if lastSignBits[j] {
+						haveK[lastSigner.keys[j]]++
+					}
+				}
+				coincides = true
+				for k := range wantK {
+					coincides = coincides && wantK[k] == haveK[k]
+				}
+			}
+			verr := lc.VerifyGenericUpdate(&lc.Store, &u2, nowSlot(), genesisRoot, cfg.Spec.ForkVersion(u2.SignatureSlot))
+			if coincides {
+				w.probe("replay_is_valid_aggregate")
+				continue
+			}
+			w.op("replay#%d of the last aggregate with participation bit %d %s -> verify err=%v", opi, i, map[bool]string{true: "set", false: "cleared"}[want], verr)
+			w.abstract("replay %v ok=%v", want, verr == nil)
+			w.probe("replayed_aggregate")
+			if verr == nil {
+				w.violate("C12", "accepted-invalid", "the aggregate presented before came again with participation bit %d %s (same header, same signature bytes) and passed verification: the signature is not valid for exactly the participating keys", i, map[bool]string{true: "set", false: "cleared"}[want])
+			}
 			continue
 		}
 		ors := newPrng(uint64(op.n(5)) + 9)
@@ -283,6 +364,8 @@ func runLC(seed uint64) {
 			attSlot = (storePeriod+2)*lcSlotsPerPeriod + uint64(ors.intn(200)) // two periods ahead
 		case 6:
 			attSlot = (storePeriod+1)*lcSlotsPerPeriod - 1 - uint64(ors.intn(3)) // last slots of the period
+		case 9:
+			attSlot = storePeriod*lcSlotsPerPeriod - 1 - uint64(ors.intn(3)) // the last slots of the previous period
 		case 7:
 			attSlot = optSlot // equal to optimistic
 		default:
@@ -460,6 +543,8 @@ func runLC(seed uint64) {
 			sigOK = false
 		}
 		u.SyncAggregate = &altair.SyncAggregate{SyncCommitteeBits: bitsOf(bits), SyncCommitteeSignature: sig}
+		lastU, lastBits, lastSignBits, lastSigner = u, append([]bool{}, bits...), append([]bool{}, signBits...), signer
+		lastMsgOK = signAtt.HashTreeRoot(tree.GetHashFn()) == att.HashTreeRoot(tree.GetHashFn()) && signVersion == forkVersion && signGenesis == genesisRoot && corrupt != 11
 		nbits := 0
 		for _, b := range bits {
 			if b {
